@@ -192,6 +192,11 @@ func VerifC17GitHubBFS(universe []Report, initial [][]VerifComment, patches map[
 		if len(n.path) > res.MaxDepth {
 			res.MaxDepth = len(n.path)
 		}
+		VerifTick()
+		if len(seen) > 100000 {
+			res.Violations = append(res.Violations, VerifC17Violation{Sig: "state-space-does-not-close", What: "more than 100000 distinct stores reached: some run keeps creating comments", Path: n.path})
+			break
+		}
 		for mask := 0; mask < 1<<len(universe); mask++ {
 			ev := fmt.Sprintf("run(%0*b)", len(universe), mask)
 			res.Transitions++
